@@ -227,7 +227,9 @@ def items(tier):
     from mc import ref as R
 
     its = []
-    for pname in programs(tier):
+    # programs whose full choice tree exceeds 5000 leaves are explored by C01/C08 only (every subset /
+    # selection multiplies the tree)
+    for pname in programs(tier, max_tree=5000):
         prog, argsl, _t = FAMILY[pname]
         k = len(R.leaf_paths(prog))
         nch = 1 if k <= 2 else 2 if k == 3 else 4
